@@ -489,3 +489,5 @@ def run(report, repo):
   report.guard(c12.r2_kill, report, repo, rule='C04-R10')
   from sa.rules import extra4  # pylint: disable=g-import-not-at-top
   report.guard(extra4.stop_wait_is_constant, report, repo, 'C04-R11')
+  from sa.rules import extra5 as _e5d  # pylint: disable=g-import-not-at-top
+  report.guard(_e5d.sigint_once_flag_writers, report, repo, 'C04-R12')
